@@ -147,16 +147,20 @@ class Ctx:
             self.samples.append(obj)
 
     # ---- Lean ----------------------------------------------------------------------------------
-    def lake(self, targets, timeout=3000):
-        """Build targets under a lock. Returns (ok, log)."""
+    def lake(self, targets, timeout=3000, then=None):
+        """Build targets under a lock. Returns (ok, log).  `then(ok, log)` runs while the lock is still held, so that a
+        step that reads the freshly built .olean files (the axiom audit) cannot race with another check's rebuild."""
         LEAN.mkdir(exist_ok=True)
         with open(LEAN / ".lock", "w") as lk:
             fcntl.flock(lk, fcntl.LOCK_EX)
             try:
                 p = subprocess.run(["lake", "build"] + list(targets), cwd=LEAN, capture_output=True, text=True, timeout=timeout)
-                return p.returncode == 0, p.stdout + p.stderr
+                ok, log = p.returncode == 0, p.stdout + p.stderr
             except subprocess.TimeoutExpired as e:
-                return False, f"lake build timed out after {timeout}s: {e}"
+                ok, log = False, f"lake build timed out after {timeout}s: {e}"
+            if then is not None:
+                then(ok, log)
+            return ok, log
 
     def prove(self, module_files, exes=(), extra_modules=(), name_filter=None):
         """
@@ -166,7 +170,6 @@ class Ctx:
         """
         mods = ["NunavutVerif.Properties." + m for m in module_files] + list(extra_modules)
         self.checker_cmd = "cd lean && lake build " + " ".join(mods + list(exes)) + " && lake env lean <generated #print axioms file>"
-        ok, log = self.lake(mods)
         names = []
         for m in module_files:
             src = (LEAN / "NunavutVerif" / "Properties" / (m + ".lean")).read_text()
@@ -176,45 +179,49 @@ class Ctx:
             names += [prefix + n for n in re.findall(r"^\s*theorem\s+([^\s:({\[]+)", code, re.M)
                       if name_filter is None or name_filter(n)]
         self.obligations = names
-        if not ok:
-            errs = re.findall(r"^error: .*|^.*: error.*$", log, re.M)
-            self.broken.append({"kind": "lake-build", "modules": mods, "errors": errs[:20], "log_tail": log[-3000:]})
-            self.discharged = 0
-        else:
-            # audit: forbidden tokens
-            bad = []
-            for f in lean_import_closure([LEAN / "NunavutVerif" / "Properties" / (m + ".lean") for m in module_files]
-                                         + [exe_root(e) for e in exes]):
-                for mm in FORBIDDEN.finditer(strip_lean_comments(f.read_text())):
-                    bad.append(f"{f.relative_to(LEAN)}: {mm.group(0)!r}")
-            if bad:
-                self.broken.append({"kind": "forbidden-token", "hits": bad[:20]})
-            # audit: axioms
-            aud = self.scratch / "Audit.lean"
-            aud.write_text("".join(f"import NunavutVerif.Properties.{m}\n" for m in module_files)
-                           + "".join(f"#print axioms {n}\n" for n in names))
-            p = subprocess.run(["lake", "env", "lean", str(aud)], cwd=LEAN, capture_output=True, text=True, timeout=1200)
-            out = p.stdout + p.stderr
-            ax = {}
-            for m in re.finditer(r"'([^']+)' depends on axioms: \[([^\]]*)\]", out, re.S):
-                ax[m.group(1)] = [a.strip() for a in m.group(2).replace("\n", " ").split(",") if a.strip()]
-            for m in re.finditer(r"'([^']+)' does not depend on any axioms", out):
-                ax[m.group(1)] = []
-            self.axioms = ax
-            good = 0
-            for n in names:
-                if n not in ax:
-                    self.broken.append({"kind": "axiom-audit-missing", "theorem": n, "output": out[-1500:]})
-                elif not set(ax[n]) <= ALLOWED_AXIOMS:
-                    self.broken.append({"kind": "axiom-audit", "theorem": n, "axioms": ax[n]})
-                else:
-                    good += 1
-            self.discharged = good if not bad else 0
-            if self.tier == "thorough" and os.environ.get("VERIF_SKIP_LEANCHECKER") != "1":
-                p = subprocess.run(["lake", "env", "leanchecker"] + mods, cwd=LEAN, capture_output=True, text=True, timeout=3000)
-                self.extra["leanchecker"] = {"rc": p.returncode, "tail": (p.stdout + p.stderr)[-400:]}
-                if p.returncode != 0:
-                    self.broken.append({"kind": "leanchecker", "output": (p.stdout + p.stderr)[-2000:]})
+
+        def _audit(ok, log):
+            if not ok:
+                errs = re.findall(r"^error: .*|^.*: error.*$", log, re.M)
+                self.broken.append({"kind": "lake-build", "modules": mods, "errors": errs[:20], "log_tail": log[-3000:]})
+                self.discharged = 0
+            else:
+                # audit: forbidden tokens
+                bad = []
+                for f in lean_import_closure([LEAN / "NunavutVerif" / "Properties" / (m + ".lean") for m in module_files]
+                                             + [exe_root(e) for e in exes]):
+                    for mm in FORBIDDEN.finditer(strip_lean_comments(f.read_text())):
+                        bad.append(f"{f.relative_to(LEAN)}: {mm.group(0)!r}")
+                if bad:
+                    self.broken.append({"kind": "forbidden-token", "hits": bad[:20]})
+                # audit: axioms
+                aud = self.scratch / "Audit.lean"
+                aud.write_text("".join(f"import NunavutVerif.Properties.{m}\n" for m in module_files)
+                               + "".join(f"#print axioms {n}\n" for n in names))
+                p = subprocess.run(["lake", "env", "lean", str(aud)], cwd=LEAN, capture_output=True, text=True, timeout=1200)
+                out = p.stdout + p.stderr
+                ax = {}
+                for m in re.finditer(r"'([^']+)' depends on axioms: \[([^\]]*)\]", out, re.S):
+                    ax[m.group(1)] = [a.strip() for a in m.group(2).replace("\n", " ").split(",") if a.strip()]
+                for m in re.finditer(r"'([^']+)' does not depend on any axioms", out):
+                    ax[m.group(1)] = []
+                self.axioms = ax
+                good = 0
+                for n in names:
+                    if n not in ax:
+                        self.broken.append({"kind": "axiom-audit-missing", "theorem": n, "output": out[-1500:]})
+                    elif not set(ax[n]) <= ALLOWED_AXIOMS:
+                        self.broken.append({"kind": "axiom-audit", "theorem": n, "axioms": ax[n]})
+                    else:
+                        good += 1
+                self.discharged = good if not bad else 0
+                if self.tier == "thorough" and os.environ.get("VERIF_SKIP_LEANCHECKER") != "1":
+                    p = subprocess.run(["lake", "env", "leanchecker"] + mods, cwd=LEAN, capture_output=True, text=True, timeout=3000)
+                    self.extra["leanchecker"] = {"rc": p.returncode, "tail": (p.stdout + p.stderr)[-400:]}
+                    if p.returncode != 0:
+                        self.broken.append({"kind": "leanchecker", "output": (p.stdout + p.stderr)[-2000:]})
+
+        self.lake(mods, then=_audit)
         drivers = {}
         if exes:
             ok2, log2 = self.lake(list(exes))
